@@ -166,7 +166,12 @@ def run(ctx):
                 if nele - dn < 0:
                     continue
                 params = [[nele, nele, norb], [nele - dn, nele - dn, norb]]   # (n, sz=n): all alpha
-                gset = fgs.FciGraphSet(4, 4, params)
+                try:
+                    gset = fgs.FciGraphSet(4, 4, params)
+                except Exception as exc:
+                    ctx.disagree(f"maps:cross-sector-raises:{type(exc).__name__}", f"linking sectors {params} raised {type(exc).__name__}: "
+                                 f"{str(exc)[:120]}", {"kind": "mapset", "dn": dn, **tag})
+                    continue
                 big_g = gset._dataset[(nele, 0)]
                 small_g = gset._dataset[(nele - dn, 0)]
                 bidx = {int(s): i for i, s in enumerate(big_g.string_alpha_all())}
